@@ -73,6 +73,13 @@ pub fn kmer_cases(tier: &str, rng: &mut Rng, rep: &mut Report) -> Vec<Case> {
     }
     rep.exhaustive_spaces
         .push("all 256 byte values between clean flanks, k in {1,2,3,16,31} (0x00-0x03 informational)".into());
+    // a few very long clean stretches (counters and registers over tens of thousands of steps)
+    for &(k, len) in &[(21u64, 66_000usize), (31, 70_000), (2, 66_500)] {
+        let mut s = gen::clean_seq(rng, len, gen::Flavor::Uniform);
+        cases.push(Case::new("kmers", &[k], &s, "long-clean"));
+        s[60_000] = b'N';
+        cases.push(Case::new("kmers", &[k], &s, "long-one-n"));
+    }
     // random
     let n = if tier == "thorough" { 150_000 } else { 6_000 };
     for _ in 0..n {
